@@ -52,8 +52,10 @@ def gen_fit(rng):
     return est, X, {'n': n, 'D': D, 'kernel': kernel, 'method': method, 'shape': shape, 'seed_type': seed_type, 'seed': seed}
 
 
-def stat_oracle(kernel, method, seed_type, n_seeds, rng, shape=1.0):
-    """mean of the kernel estimate over many seeds at fixed point pairs vs the closed-form kernel (6 standard errors)"""
+def stat_oracle(kernel, method, seed_type, n_seeds, rng, shape=1.0, refit_from=None):
+    """mean of the kernel estimate over many seeds at fixed point pairs vs the closed-form kernel (6 standard errors);
+    refit_from: the estimator was first fitted as an approximation of ANOTHER kernel, then renamed with set_params and
+    fitted again - it must approximate the kernel it is named after now"""
     D = 20
     pairs = [(np.array([-1.0]), np.array([0.0])), (np.array([0.3]), np.array([1.1])), (np.array([2.0]), np.array([1.5])),
              (np.array([0.7]), np.array([0.7]))]
@@ -64,18 +66,24 @@ def stat_oracle(kernel, method, seed_type, n_seeds, rng, shape=1.0):
         vals = []
         for s in range(n_seeds):
             seed = base + s
-            est = pykoop.RandomFourierKernelApprox(kernel_or_ft=kernel, n_components=D, shape=shape, method=method,
+            est = pykoop.RandomFourierKernelApprox(kernel_or_ft=kernel if refit_from is None else refit_from, n_components=D,
+                                                   shape=shape, method=method,
                                                    random_state=seed if seed_type == 'int' else np.random.RandomState(seed))
             est.fit(np.zeros((2, x.shape[0])))
+            if refit_from is not None:
+                est.set_params(kernel_or_ft=kernel)
+                est.fit(np.zeros((2, x.shape[0])))
             z = est.transform(np.vstack((x, y)))
             vals.append(float(z[0] @ z[1]))
         vals = np.array(vals)
         want = kernel_value(kernel, shape, x - y)
         se = vals.std(ddof=1) / np.sqrt(n_seeds)
         if abs(vals.mean() - want) > 6 * se + 1e-3:
-            return (f'{kernel}/{method}/{seed_type} seed, shape={shape}: mean kernel estimate {vals.mean():.4f} at x={x.tolist()}, y={y.tolist()} '
+            hist = '' if refit_from is None else f' after fit as {refit_from}, set_params(kernel_or_ft={kernel!r}), fit'
+            return (f'{kernel}/{method}/{seed_type} seed, shape={shape}{hist}: mean kernel estimate {vals.mean():.4f} at x={x.tolist()}, y={y.tolist()} '
                     f'is {abs(vals.mean() - want) / max(se, 1e-12):.1f} standard errors from the kernel value {want:.4f}',
-                    {'kernel': kernel, 'method': method, 'seed_type': seed_type, 'x': x.tolist(), 'y': y.tolist()})
+                    {'kernel': kernel, 'method': method, 'seed_type': seed_type, 'x': x.tolist(), 'y': y.tolist(),
+                     'shape': shape, 'refit_from': refit_from})
     return None
 
 
@@ -159,6 +167,13 @@ def run(ctx):
                     ctx.count('stat:' + seed_type)
                     if res:
                         ctx.fail(res[0], res[1], {'seed_type': res[1]['seed_type'], 'method': res[1]['method']})
+    # the same after a re-fit under a new name (history): fit as kernel A, set_params(kernel_or_ft=B), fit
+    for kernel, other in zip(KERNELS, KERNELS[1:] + KERNELS[:1]):
+        for method, seed_type in (('weight_only', 'int'), ('weight_offset', 'instance')):
+            res = stat_oracle(kernel, method, seed_type, n_seeds // 2, ctx.rng, 1.0, refit_from=other)
+            ctx.count('stat:refit')
+            if res:
+                ctx.fail(res[0], res[1], {'seed_type': res[1]['seed_type'], 'method': res[1]['method'], 'history': 'refit'})
     return ctx.finish('other', None)
 
 
